@@ -428,7 +428,7 @@ fn foreign_root_pass(env: &Env, report: &mut Report, spec: &str, v1: bool) {
 /// disconnected if it gets banned and the sync runs on to quiescence with the remaining peer.
 /// Afterwards the store may hold only what the proven chain contains, the index must be complete
 /// (reference index), and no forged transaction may be reported as committed.
-fn banned_then_continue_pass(env: &Env, report: &mut Report, spec: &str, slow_blocks: bool) {
+fn banned_then_continue_pass(env: &Env, report: &mut Report, spec: &str, slow_blocks: bool, after_honest: u8) {
     use crate::service::TransactionRpc;
     use crate::verif::driver::{InFlight, World};
     use crate::verif::oracle;
@@ -533,10 +533,16 @@ fn banned_then_continue_pass(env: &Env, report: &mut Report, spec: &str, slow_bl
                 continue;
             }
             let home = sim.queue.pop_front().unwrap();
+            // after_honest 1 / 2: the honest body arrives first and the forgery is a SECOND SendBlock
+            // for the same header (from the same / the other peer) while the record is incomplete
+            let forger = if after_honest == 2 { 3 - home.peer } else { home.peer };
+            if after_honest > 0 {
+                sim.deliver_msg(home.clone());
+            }
             let forged_block = block.clone().as_builder().transactions(body.pack()).build();
             let msg = packed::SyncMessage::new_builder().set(packed::SendBlock::new_builder().block(forged_block).build()).build();
             let r = crate::verif::props::panics::catch(|| {
-                sim.deliver_msg(InFlight { proto: crate::verif::net::Proto::Sync, peer: home.peer, data: msg.as_bytes(), note: format!("SendBlock({})[{}]", number, label) });
+                sim.deliver_msg(InFlight { proto: crate::verif::net::Proto::Sync, peer: forger, data: msg.as_bytes(), note: format!("SendBlock({})[{}]", number, label) });
                 // the network layer drops a banned peer
                 let banned: Vec<usize> = sim.bans().iter().map(|(p, _)| p.value()).collect();
                 for p in &banned {
@@ -574,9 +580,9 @@ fn banned_then_continue_pass(env: &Env, report: &mut Report, spec: &str, slow_bl
             }
             for (class, items) in oracle::group(bad) {
                 report.violation(
-                    format!("after-forged-body/{}/{}", class, label),
-                    format!("[{}/{}{}] SendBlock({}) with the proven header and a forged body ({}) from peer {}, sender dropped if banned, honest continuation: {}", wname, sname, if slow_blocks { "/slow-blocks" } else { "" }, number, label, home.peer, items[0]),
-                    json!({"scenario": "banned-then-continue", "variant": label, "block": number, "kth_send_block": k, "spec": spec, "slow_blocks": slow_blocks, "all": items.iter().take(6).collect::<Vec<_>>()}),
+                    format!("after-forged-body{}/{}/{}", ["", "-following-the-honest-one", "-following-the-honest-one"][after_honest as usize], class, label),
+                    format!("[{}/{}{}] SendBlock({}) with the proven header and a forged body ({}) from peer {}{}, sender dropped if banned, honest continuation: {}", wname, sname, if slow_blocks { "/slow-blocks" } else { "" }, number, label, forger, ["", " right after the honest body from the same peer", " right after the honest body from the other peer"][after_honest as usize], items[0]),
+                    json!({"scenario": "banned-then-continue", "variant": label, "block": number, "kth_send_block": k, "spec": spec, "slow_blocks": slow_blocks, "after_honest": after_honest, "all": items.iter().take(6).collect::<Vec<_>>()}),
                 );
             }
             old = Some(sim);
@@ -609,11 +615,14 @@ pub(crate) fn run(opts: &Opts, report: &mut Report) {
     let sweep_items = grid.len() * scns.len() * CHUNKS;
     // + the foreign-chain-root forgeries (V0, V1; thorough: also Eaglesong)
     let foreign: Vec<(&'static str, bool)> = if thorough { vec![("mini_dummy.toml", false), ("mini_dummy.toml", true), ("mini_eaglesong.toml", false), ("mini_eaglesong.toml", true)] } else { vec![("mini_dummy.toml", false), ("mini_dummy.toml", true)] };
-    let items = sweep_items + foreign.len() + 2;
+    // + forged bodies replacing / following the honest one: (slow blocks, after_honest)
+    let btc: [(bool, u8); 6] = [(false, 0), (true, 0), (false, 1), (true, 1), (false, 2), (true, 2)];
+    let items = sweep_items + foreign.len() + btc.len();
     let worker = crate::verif::props::shard::run("C02", opts, report, items, 16, |item, report| {
         if item >= sweep_items + foreign.len() {
             let env = Env::dummy();
-            banned_then_continue_pass(&env, report, "mini_dummy.toml", item - sweep_items - foreign.len() == 1);
+            let (slow, after) = btc[item - sweep_items - foreign.len()];
+            banned_then_continue_pass(&env, report, "mini_dummy.toml", slow, after);
             return;
         }
         if item >= sweep_items {
